@@ -53,7 +53,9 @@ Definition atoi (s : list N) : option Z :=
       end
   end.
 
-(** versionFromPath.  [Panic 1] = slice bounds out of range in path[und+2:dot]. *)
+(** versionFromPath (after fix 5288900: `if dot < und+2 { return path, 0 }` guards the slice
+    path[und+2:dot]; before, a last '_' directly followed by '.' made it panic).  The result type stays
+    [outcome]: that no input reaches a Panic is a theorem (C19_scan_never_panics), not an artefact. *)
 Definition version_from_path (p : path) : outcome (path * Z) :=
   match last_index_byte c_und p with
   | None => Ok (p, 0%Z)
@@ -62,7 +64,7 @@ Definition version_from_path (p : path) : outcome (path * Z) :=
       | None => Ok (p, 0%Z)
       | Some d =>
           let dot := d + und in
-          if dot <? und + 2 then Panic 1
+          if dot <? und + 2 then Ok (p, 0%Z)
           else match atoi (slice p (und + 2) dot) with
                | None => Ok (p, 0%Z)
                | Some v => Ok (firstn und p, v)
